@@ -24,7 +24,14 @@ for p in sorted((V / "notes").glob("C*.md")):
 block("NOTES", "\n\n".join(notes))
 
 def _st(m):
-    return "missed (strengthening in progress)" if "in progress" in m.get("note", "") else "missed, then check strengthened"
+    n = m.get("note", "")
+    if "in progress" in n:
+        return "missed (strengthening in progress)"
+    if "neighbour" in n:
+        return "caught by a neighbouring property's check"
+    if "correspondence only" in n:
+        return "correspondence only at first, then an input is named"
+    return "missed, then check strengthened"
 
 
 rows = ["| id | property | what the change needs to manifest | detected by |", "|---|---|---|---|"]
@@ -61,10 +68,11 @@ for pr in props:
     if sd.exists():
         m = json.loads(sd.read_text())
         sdt = _st(m) if m.get("note") else ("caught (monitor only in quick)" if "no-failing-input-found" in m["detected_by"] else "caught")
-    sd2 = V / "seeded" / f"{pid}-2" / "meta.json"
-    if sd2.exists():
-        m2 = json.loads(sd2.read_text())
-        sdt += "; round 2: " + (_st(m2) if m2.get("note") else ("caught (correspondence only, no input named)" if "no-failing-input-found" in m2["detected_by"] else "caught"))
+    for k in range(2, 10):
+        sdk = V / "seeded" / f"{pid}-{k}" / "meta.json"
+        if sdk.exists():
+            mk = json.loads(sdk.read_text())
+            sdt += f"; round {k}: " + (_st(mk) if mk.get("note") else ("caught (correspondence only, no input named)" if "no-failing-input-found" in mk["detected_by"] else "caught"))
     rows.append(f"| {pid} | {'proof' if pid in claimed else 'not claimed'} | {th} | {cases} | {fx} | {kn} | {sdt} |")
 block("STATUS", "\n".join(rows))
 (V / "DESIGN.md").write_text(d)
